@@ -449,8 +449,9 @@ def parse_kani(text, names):
         checks = int(m.group(2)) if m else 0
         nfailed = int(m.group(1)) if m else 0
         failed = []
-        for fm in re.finditer(r'Failed Checks: (.*)\n\s*File: "([^"]+)", line (\d+), in (\S+)', b):
-            failed.append({'desc': fm.group(1).strip(), 'file': fm.group(2), 'line': int(fm.group(3)), 'in': fm.group(4)})
+        # (the description of an `assert!` without message is its source text and may span several lines)
+        for fm in re.finditer(r'Failed Checks: (.*?)\n\s*File: "([^"]+)", line (\d+), in (\S+)', b, re.S):
+            failed.append({'desc': re.sub(r'\s+', ' ', fm.group(1)).strip(), 'file': fm.group(2), 'line': int(fm.group(3)), 'in': fm.group(4)})
         covers = re.findall(r'Status: (SATISFIED|UNSATISFIABLE|UNREACHABLE)\s*\n\s*Description: "?cover', b)
         mcov = re.search(r'\*\* (\d+) of (\d+) cover properties satisfied', b)
         tm = re.search(r'Verification Time: ([\d.]+)s', b)
